@@ -2079,6 +2079,30 @@ def regex_shape(pattern, flags=0, searched_only=False):
             before = [jt for jt in alt[:i] if jt[0] not in MARK]
             after = [jt for jt in alt[i + 1:] if jt[0] not in MARK]
             edge = searched_only and (not before or not after)
+            # inside an optional group with nothing mandatory behind it, a
+            # narrower class cannot reject anything: the group is skipped
+            opt_depth = 0
+            for jt in alt[:i]:
+                if jt[0] == "REP-OPEN" and jt[1] == 0:
+                    opt_depth += 1
+                elif jt[0] == "REP-CLOSE" and jt[1] == 0:
+                    opt_depth -= 1
+            if opt_depth > 0:
+                d_ = opt_depth
+                tail_free = True
+                for jt in alt[i + 1:]:
+                    if jt[0] == "REP-OPEN" and jt[1] == 0:
+                        d_ += 1
+                    elif jt[0] == "REP-CLOSE" and jt[1] == 0:
+                        d_ -= 1
+                    elif jt[0] in MARK:
+                        continue
+                    elif d_ <= 0:
+                        r3 = rep_of(jt)
+                        if r3 is None or r3[0] > 0:
+                            tail_free = False
+                            break
+                edge = edge or tail_free
             if not (WS <= cs) and not edge and first_time:
                 bad.append(("ws-partial", "a white-space repeat admits "
                             "only %s" % (cs,)))
